@@ -11,6 +11,7 @@ const overlayActive = true
 func setMapPerm(f func(n int, site string) []int)              { verifrt.Perm = f }
 func setFieldHook(f func(addr uintptr, kind int, site string)) { verifrt.Hook = f }
 func setSyncHook(f func(kind int, addr uintptr) int)           { verifrt.Sync = f }
+func setSpawnHook(f func(func()))                              { verifrt.Spawn = f }
 
 const (
 	evLock        = verifrt.EvLock
@@ -22,4 +23,13 @@ const (
 	evAtomicLoad  = verifrt.EvAtomicLoad
 	evAtomicStore = verifrt.EvAtomicStore
 	evAtomicRMW   = verifrt.EvAtomicRMW
+	evTryLock     = verifrt.EvTryLock
+	evTryRLock    = verifrt.EvTryRLock
+	evWGAdd       = verifrt.EvWGAdd
+	evWGDone      = verifrt.EvWGDone
+	evWGWait      = verifrt.EvWGWait
+	evCondEnq     = verifrt.EvCondEnq
+	evCondWait    = verifrt.EvCondWait
+	evCondSignal  = verifrt.EvCondSignal
+	evCondBcast   = verifrt.EvCondBcast
 )
